@@ -116,6 +116,33 @@ pub fn run_case(c: &Case, ctx: &mut Ctx) -> CaseResult {
         }
         compare_tree_opts(name, &r, &expect, &inputs, &mode, false).map_err(|(m, d)| Failure::with(m, d))?;
     }
+    // one-row affine function against a tree with several outputs: ndarray broadcasts the single row (and bias)
+    // over the rows of every terminal.  The mixed forms must agree with that whichever side the function is on; a
+    // form that panics on such shapes is counted and not judged (the statement does not fix the shapes).
+    if c.f.outdim() >= 2 {
+        let f1 = Aff { mat: Mat { rows: vec![c.f.mat.rows[0].clone()], cols: c.f.mat.cols }, bias: vec![c.f.bias[0]] };
+        let f1l = f1.lib();
+        let fb = Aff { mat: Mat { rows: vec![c.f.mat.rows[0].clone(); c.f.outdim()], cols: c.f.mat.cols }, bias: vec![c.f.bias[0]; c.f.outdim()] };
+        let fbq = fb.q();
+        let forms: Vec<(&str, Result<AffTree<2>, String>, Ref)> = vec![
+            ("tree + &aff (one-row aff, broadcast)", guard(|| at.clone() + &f1l), aref.map_leaves(&|l| Ref::leaf(l.zip_with(&fbq, |x, y| x + y)))),
+            ("&aff + tree (one-row aff, broadcast)", guard(|| &f1l + at.clone()), aref.map_leaves(&|l| Ref::leaf(fbq.zip_with(l, |x, y| x + y)))),
+            ("tree - &aff (one-row aff, broadcast)", guard(|| at.clone() - &f1l), aref.map_leaves(&|l| Ref::leaf(l.zip_with(&fbq, |x, y| x - y)))),
+            ("&aff - tree (one-row aff, broadcast)", guard(|| &f1l - at.clone()), aref.map_leaves(&|l| Ref::leaf(fbq.zip_with(l, |x, y| x - y)))),
+            ("aff * tree (one-row aff, broadcast)", guard(|| f1l.clone() * at.clone()), aref.map_leaves(&|l| Ref::leaf(fbq.zip_with(l, |x, y| x * y)))),
+        ];
+        for (name, r, expect) in forms {
+            match r {
+                Err(_) => ctx.class("broadcast_form_panics_not_judged"),
+                Ok(r) => {
+                    ctx.class("broadcast_mixed_form");
+                    if expect.max_bits().map(|b| b <= 50).unwrap_or(false) {
+                        compare_tree_opts(name, &r, &expect, &inputs, &mode, false).map_err(|(m, d)| Failure::with(m, d))?;
+                    }
+                }
+            }
+        }
+    }
     ctx.count("inputs_on_boundary", judged_boundary as u64);
     ctx.count("thin_exempt", thin as u64);
     // non-commutative on the drawn data?
